@@ -10,7 +10,7 @@ from typing import Union, List, Optional, Dict
 
 # Local imports
 from ...connect import Connectable
-from ...instance import _get_connref
+from ...instance import _get_connref, InstanceArray
 from ...instantiable import (
     io,
     Instantiable,
@@ -276,6 +276,10 @@ class ResolvePortRefs(ElabPass):
 
         # Copy any relevant attributes of the Port
         sig = self.copy_port(port)
+        if isinstance(portref.inst, InstanceArray) and isinstance(sig, Signal):
+            # Give each element of an `InstanceArray` its own part of the unconnected signal,
+            # rather than broadcasting (and thereby shorting) a single one among them.
+            sig.width = port.width * portref.inst.n
 
         # Set the signal name, either from the NoConn or the instance/port names
         if noconn.name is not None:
